@@ -119,7 +119,7 @@ def _build(q, elements, extras):
     from chython.containers import MoleculeContainer
     m = MoleculeContainer()
     for n, qa in q.atoms():
-        a = m.add_atom(elements[n], n, _skip_calculation=True)
+        m.add_atom(elements[n], n, _skip_calculation=True)
         at = m._atoms[n]
         at._charge = getattr(qa, 'charge', 0)
         at._is_radical = getattr(qa, 'is_radical', False)
